@@ -303,6 +303,19 @@ def run_case(ctx, case):
            len(terms) else None
     if filt is None:
       return False
+    # the same (fractional-delay) filter with its terms created in the
+    # opposite order: equal, hence equal hashes
+    twin = ZFilter({k: v for k, v in reversed(terms)})
+    if len(terms) > 1:
+      ctx.count("hash:fractional-terms-in-another-order")
+      if not (filt == twin) or filt != twin:
+        ctx.violation("eq/same-coefficients-compare-unequal", case,
+                      form="terms created in the opposite order")
+        return True
+      if hash(filt) != hash(twin):
+        ctx.violation("hash/equal-fractional-delay-filters-hash-differently",
+                      case)
+        return True
     lin = filt.linearize()
     want = {}
     for k, v in terms:
@@ -436,6 +449,16 @@ def run_alg(ctx, case):
                               [-Lin.lift(v) for v in fo])
   if not ok:
     return True
+  # equal filters whose terms were created in a different order hash equally
+  for name, a_, b_ in (("add", f + g, g + f), ("add3", (f + g) + h,
+                                               h + (g + f))):
+    if a_ == b_:
+      ctx.count("equal-pairs-hash-compared")
+      ctx.count("hash:terms-created-in-another-order")
+      if hash(a_) != hash(b_):
+        ctx.violation("hash/equal-filters-hash-differently", case,
+                      built="%s in both operand orders" % name)
+        return True
   # product = composition in either order
   fg = run_filter(f, outs(g))[1]
   gf = run_filter(g, outs(f))[1]
@@ -619,6 +642,8 @@ def finish(ctx):
             "linearize-compared"]:
     ctx.need(k, 50)
   ctx.need("pow-negative", 100)
+  ctx.need("hash:fractional-terms-in-another-order", 100)
+  ctx.need("hash:terms-created-in-another-order", 200)
   ctx.need("substitution:random", 50)
   ctx.need("substitution:special", 50)
   for how in ["same", "num-only", "den-only", "other"]:
